@@ -184,6 +184,7 @@ def c04(repo, col):
     S.minishard_encode_before_park(repo, col)
     M.shard_close_sequence(repo, col)
     M2.shard_lifecycle(repo, col)
+    M2.shard_protocol_guards(repo, col)
     M2.swapped_arguments(repo, col)
     M2.shard_name_format_spec(repo, col)
     col.floor("E-SPEC.sharded", 9)
@@ -222,6 +223,7 @@ def c05(repo, col):
     O.exit_order(repo, col)
     M.shard_close_sequence(repo, col)
     M2.shard_lifecycle(repo, col)
+    M2.shard_protocol_guards(repo, col)
     M2.module_level_caches(repo, col, sh)
     M2.swapped_arguments(repo, col)
     col.floor("E-PROTO", 7)
